@@ -384,6 +384,32 @@ def step (ctx : Ctx) (lhs : String) (implObs : String := "") : Ctx × String :=
        s!"ok listen={",".intercalate a.listen} dir={a.dataDir} days={a.snapshotDays} versions={a.snapshotVersions} allow={al}")
   | "pool" :: _ => (ctx, "")
   | ["restart"] => (ctx, "ok")
+  | "open" :: _ => (ctx, "")
+  | "nowalk" :: _ => (ctx, "empty")
+  | "expect" :: _ => (ctx, "")
+  | ["rawload", "empty"] => ({ ctx with st := .sql {} }, "ok clients=0 versions=0")
+  | "rawload" :: rows =>
+    -- decode the rows exactly as `sqlite/src/lib.rs` reads them: ids are TEXT parsed by `Uuid::parse_str`
+    let txtId (f : String) : Option Uuid :=
+      if f.startsWith "t:" then (bytesOfHexStr (f.drop 2).toString).bind fun b => parseUuid b.toList else none
+    let optF {α} (f : String) (g : String → Option α) : Option (Option α) := if f = "NULL" then some none else (g f).map some
+    let res : Option Sql := rows.foldlM (fun (acc : Sql) (w : String) =>
+      if w.startsWith "C:" then
+        match (w.drop 2).toString.splitOn "," with
+        | [cid, lat, sv, since, ts, blob] => do
+          let r : ClientRow := { clientId := ← txtId cid, latest := ← txtId lat, snapVid := ← optF sv txtId,
+                                 since := ← optF since String.toNat?, ts := ← optF ts String.toInt?, snap := ← optF blob parseBlob }
+          some { acc with clients := acc.clients ++ [r] }
+        | _ => none
+      else if w.startsWith "V:" then
+        match (w.drop 2).toString.splitOn "," with
+        | [vid, cid, par, blob] => do
+          some { acc with versions := acc.versions ++ [⟨← txtId vid, ← txtId cid, ← txtId par, ← parseBlob blob⟩] }
+        | _ => none
+      else none) ({} : Sql)
+    match res with
+    | some s => ({ ctx with st := .sql s }, s!"ok clients={s.clients.length} versions={s.versions.length}")
+    | none => (ctx, "decode-error")
   | "dump" :: c :: rest =>
     match uuidOf c with
     | none => (ctx, "bad-op")
